@@ -34,6 +34,6 @@ def run(ctx):
 def replay(ctx, case):
     with oracles.NeighborCounter() as nc:
         trav.run_case(ctx, nc, case["spec"], case["start"], case["dir"], case["unk"], case["via"], case["res"],
-                      case["cache"], WANT)
+                      case["cache"], WANT, then=case.get("then"))
     ctx.nontrivial("replay-a")
     ctx.nontrivial("replay-b")
